@@ -5,7 +5,8 @@ use crate::layout::SizeArray;
 /// Return true if a given shape and strides describe a contiguous layout in
 /// row-major ("C") order.
 pub fn is_contiguous<S: SizeArray, Strides: SizeArray>(shape: &S, strides: &Strides) -> bool {
-    let mut product = 1;
+    // Product of the sizes of inner dimensions, or `None` if it overflowed.
+    let mut product = Some(1usize);
     for (size, stride) in shape.iter().zip(strides.iter()).rev() {
         // Dimensions of size 1 cannot affect whether the tensor is contiguous,
         // since the only valid index is 0 and `0 * stride = 0` for any stride.
@@ -13,10 +14,11 @@ pub fn is_contiguous<S: SizeArray, Strides: SizeArray>(shape: &S, strides: &Stri
             continue;
         }
 
-        if stride != product {
+        // If the product overflowed, no stride can be equal to it.
+        if Some(stride) != product {
             return false;
         }
-        product = product.saturating_mul(size);
+        product = product.and_then(|product| product.checked_mul(size));
     }
     true
 }
